@@ -26,7 +26,9 @@ namespace mfuse
     enum pointer_fixup_e
     {
         normal,
-        safe
+        safe,
+        /** Not a pointer: call func(object) once every pointer of the archive has been resolved. */
+        afterLoad
     };
 
     struct pointer_fixup_t
@@ -35,9 +37,11 @@ namespace mfuse
             AbstractClass** classPtr;
             SafePtrBase* safePtr;
             void** ptr;
+            void* object;
         };
         uintptr_t index;
         pointer_fixup_e type;
+        void (*func)(void* object);
     };
 
     struct mfuse_EXPORTS version_info_t
@@ -91,6 +95,13 @@ namespace mfuse
         template<typename T> void ArchiveElements(T* elements, size_t count);
 
         mfuse_EXPORTS bool ObjectPositionExists(const void* obj) const noexcept;
+
+        /**
+         * While reading: call func(object) when the archive is closed, after all the pointers read from it
+         * have been resolved (for data that depends on the value of a pointer, e.g. a table keyed by listeners).
+         * The object must outlive the archiver, like any pointer slot handed to it.
+         */
+        mfuse_EXPORTS void AfterLoad(void (*func)(void* object), void* object);
 
         /** Number of bytes the read stream still holds (a length taken from the archive cannot exceed it). */
         mfuse_EXPORTS size_t GetRemainingSize();
